@@ -6,7 +6,7 @@
    the state after some program that raised no error. *)
 From Coq Require Import List ZArith NArith Bool Permutation.
 Import ListNotations.
-From SAV.orm Require Import Shard ShardDb ShardInv ShardFlush ShardLoad ShardOps ShardThm ShardSticky.
+From SAV.orm Require Import Shard ShardDb ShardInv ShardFlush ShardLoad ShardOps ShardDelete ShardThm ShardSticky.
 Open Scope Z_scope.
 
 (* ---------- clause 1: every flushed object is written to the shard its shard chooser selects ---------- *)
@@ -133,6 +133,38 @@ Theorem c53_get_with_token_hits_only_that_shard :
 Proof. exact get_with_token_hits_only_that_shard. Qed.
 Print Assumptions c53_get_with_token_hits_only_that_shard.
 
+(* several objects deleted in ONE flush, for ANY assignment of equal primary keys to different tokens:
+   exactly the rows of the deleted identities (pk, token) disappear, each from the shard named by its
+   token (a row of shard s survives iff no deleted object has token s and that pk), and one DELETE per
+   deleted object is emitted, on the shard of its token *)
+Theorem c53_flush_deletes_exactly_the_deleted_identities :
+  forall (sc : row -> N) (ic : Z -> list N) (ec : qry -> list N) (d0 : dbs), wf_db d0 ->
+  forall st os st', reachable sc ic ec d0 st -> do_delete sc st os = Ok st' ->
+  exists st1, flush sc st = Ok st1 /\
+    wlog st' = wlog st1 ++ flat_map (del_of st1) (dedup os) /\
+    (forall o, In o os -> exists i, nth_error (insts st) o = Some i /\ i_life i = Persistent /\
+                          del_of st1 o = match i_tok i with Some t => [WDel t (r_pk (i_cur i))] | None => [] end) /\
+    (forall s x, In x (db st' s) <->
+                 In x (db st1 s) /\ ~ exists o, In o os /\ is_identity st1 o s (r_pk x)).
+Proof. intros sc ic ec d0 _. exact (flush_deletes_exactly_the_deleted_identities sc ic ec d0). Qed.
+Print Assumptions c53_flush_deletes_exactly_the_deleted_identities.
+
+(* merge of a detached object with identity key (pk, t) looks its target up under (pk, t) only: identity
+   map, then at most one SELECT, on shard t.  The returned object shows the given values and carries
+   token t (shard t has that pk), or it is a NEW pending object and shard t has no such row; every other
+   object - in particular the object with the same pk of another shard - is left alone *)
+Theorem c53_merge_targets_pk_and_token :
+  forall (sc : row -> N) (ic : Z -> list N) (ec : qry -> list N) (d0 : dbs), wf_db d0 ->
+  forall st r t st' ro, reachable sc ic ec d0 st -> do_merge sc ic ec st r t = Ok (st', ro) ->
+  exists st1 o i, flush sc st = Ok st1 /\ ro = Some o /\ db st' = db st1 /\
+    (rlog st' = rlog st \/ rlog st' = rlog st ++ [t]) /\
+    nth_error (insts st') o = Some i /\ i_cur i = r /\
+    ((i_tok i = Some t /\ has_pk (r_pk r) (db st' t) = true) \/
+     (i_life i = Pending /\ i_tok i = None /\ has_pk (r_pk r) (db st' t) = false /\ (length (insts st1) <= o)%nat)) /\
+    (forall o' i', o' <> o -> nth_error (insts st1) o' = Some i' -> nth_error (insts st') o' = Some i').
+Proof. exact merge_targets_pk_and_token. Qed.
+Print Assumptions c53_merge_targets_pk_and_token.
+
 (* ---------- non-vacuity: attribute-based chooser, the same primary key 1 in both shards ---------- *)
 Definition ex_sc (r : row) : N := if r_grp r =? 0 then 0%N else 1%N.
 Definition ex_ic (k : Z) : list N := [0; 1]%N.
@@ -155,4 +187,13 @@ Example c53_ex_run :
                [Some (1%N, mkRow 2 0 3); Some (1%N, mkRow 1 1 6); Some (0%N, mkRow 1 0 5); None] /\
              wlog st = [WIns None 1%N (mkRow 2 7 9); WUpd 1%N (mkRow 2 0 3)] /\
              rlog st = [1; 0]%N /\ db st 1%N = [mkRow 1 1 6; mkRow 2 0 3] /\ db st 0%N = [mkRow 1 0 5].
+Proof. eexists. split; [vm_compute; reflexivity|]. vm_compute. repeat split. Qed.
+
+(* the objects of both shards with primary key 1 deleted in one flush: both rows are gone; then a detached
+   object with identity (1, shard 1) is merged: no such row -> a new pending object *)
+Example c53_ex_delete_merge :
+  exists st, run ex_sc ex_ic ex_ec (init ex_d0)
+               [OQuery QAll None false; ODelete [0; 1]%nat; OMerge (mkRow 1 1 8) 1%N] = Ok st /\
+             wlog st = [WDel 1%N 1; WDel 0%N 1] /\ db st 0%N = [] /\ db st 1%N = [] /\
+             map (fun i => i_life i) (insts st) = [Gone; Gone; Pending].
 Proof. eexists. split; [vm_compute; reflexivity|]. vm_compute. repeat split. Qed.
